@@ -14,7 +14,7 @@ LEVEL = "model_checking"
 RULE = ("all ordered lists of <=2 (thorough: <=3) distinct strings over a 17-string alphabet and of integers over {-2,-1,0,1,2,10}, x null "
         "member x default (none / first / non-member) x inline vs referenced x Enum classes vs literal_enums; consts over 10 values x "
         "required x typed/untyped; a const as a member of a oneOf/anyOf with each of 8 partner kinds, both orders; inputs: every listed value, null, and a probe set of values not listed (case variants, trimmed, "
-        "suffixed, other type); non-trivial = the holder model was generated and every listed value exercised")
+        "suffixed, other type); non-trivial = the holder model was generated and every listed value exercised; enums / consts used by an operation: as JSON response (alone / next to 204, empty 404, default) and as query / header parameter, both enum styles, inline and by reference: every listed value is accepted / transmitted as written, unlisted replies are refused")
 FLOOR = 0.4
 ASSUMPTIONS = ["the pinned uncaught ValueError('Duplicate key ...') counts as 'reported' for C14 (it is C06's business as a crash)"]
 
